@@ -244,8 +244,8 @@ func decodeBytecodeV2(bc *Bytecode, r *bytes.Buffer) error {
 				return err
 			}
 
-			data := make([]byte, sz)
-			if _, err = io.ReadFull(r, data); err != nil {
+			data, err := readPayload(r, nil, int64(sz))
+			if err != nil {
 				return err
 			}
 
@@ -377,15 +377,10 @@ func DecodeObject(r io.Reader) (obj ugo.Object, err error) {
 			return nil, err
 		}
 
-		n := 1 + len(readBytes)
-		buf := make([]byte, n+int(value))
-		buf[0] = btype
-		copy(buf[1:], readBytes)
-
-		if value > 0 {
-			if _, err = io.ReadFull(r, buf[n:]); err != nil {
-				return nil, err
-			}
+		head := append([]byte{btype}, readBytes...)
+		buf, err := readPayload(r, head, value)
+		if err != nil {
+			return nil, err
 		}
 
 		switch btype {
@@ -1349,6 +1344,31 @@ func checkDecodeLen(n int64, r io.Reader) error {
 		return io.ErrUnexpectedEOF
 	}
 	return nil
+}
+
+// readPayload returns head followed by the next n bytes of r. If the number
+// of bytes left in r is not known the buffer grows with the bytes that are
+// really there, a length field alone does not make it allocate.
+func readPayload(r io.Reader, head []byte, n int64) ([]byte, error) {
+	if _, ok := r.(interface{ Len() int }); ok || n <= 4096 {
+		buf := make([]byte, len(head)+int(n))
+		copy(buf, head)
+		if n > 0 {
+			if _, err := io.ReadFull(r, buf[len(head):]); err != nil {
+				return nil, err
+			}
+		}
+		return buf, nil
+	}
+	var b bytes.Buffer
+	b.Write(head)
+	if m, err := io.CopyN(&b, r, n); err != nil {
+		if err == io.EOF && m < n {
+			err = io.ErrUnexpectedEOF
+		}
+		return nil, err
+	}
+	return b.Bytes(), nil
 }
 
 func readByteFrom(r io.Reader) (byte, error) {
